@@ -251,7 +251,8 @@ static void gen_inspect(htp_connp_t *c, hx_obs *o, void *ctx) {
     if (bad) {
         hb_term(&err);
         char *nl = strchr((char *) err.p, '\n'); if (nl) *nl = 0;
-        int early = 0; for (int i = 0; i < GE.nmsg; i++) if (GE.truth[i].interim100 == 2) early = 1;
+        int early = 0, ncl = 0; for (int i = 0; i < GE.nmsg; i++) { if (GE.truth[i].interim100 == 2) early = 1; if (GE.truth[i].interim100 == 3) ncl = 1; }
+        if (ncl && !early) { hx_verdict_add("C02", "fidelity_304_length", "%s: %d mismatch(es); first: %s", GE.name, bad, (char *) err.p); gen_mism++; return; }
         /* exchanges with an interim response other than 100 are a class of their own (input class, decided by the generator alone) */
         hx_verdict_add("C02", early ? "fidelity_interim_1xx" : "fidelity", "%s: %d mismatch(es); first: %s", GE.name, bad, (char *) err.p);
         gen_mism++;
@@ -299,6 +300,7 @@ static void mode_gen(int argc, char **argv) {
     int thorough = !strcmp(hx_tier, "thorough");
     int D = atoi(hx_arg(argc, argv, "--dev", thorough ? "3" : "2"));
     gen_cuts = atoi(hx_arg(argc, argv, "--cuts", "1"));
+    gx_nobody_cl = 1;
     gs_alts[GS_STATUS] = 7;        /* + an interim 103 before the final answer (the segmentation / steady-state workloads keep the 6 others: one defect, one place) */
     long total = gx_enum_deviations(D, gen_visit, NULL);
     hx_emit_stat("messages_total", hx_shard_i == 0 ? total : 0);
@@ -764,7 +766,7 @@ static void mode_tunnel(int argc, char **argv) {
     static const int STAT[] = { 200, 204, 101, 407, 403, 500 };
     static hx_buf q, r;
     for (int reqkind = 0; reqkind < 2; reqkind++)            /* 0 CONNECT, 1 GET with Upgrade */
-    for (size_t si = 0; si < 6; si++) for (int payload = 0; payload < 5; payload++) for (int body = 0; body < 2; body++) for (int interim = 0; interim < 2; interim++) {
+    for (size_t si = 0; si < 6; si++) for (int payload = 0; payload < 7; payload++) for (int body = 0; body < 2; body++) for (int interim = 0; interim < 2; interim++) {
         /* interim: the final answer is preceded by an interim "100 Continue" response (swallowed by the response parser; with a cut at its end and a
          * request call in between, the request side must keep waiting for the FINAL status) */
         int status = STAT[si];
@@ -777,6 +779,10 @@ static void mode_tunnel(int argc, char **argv) {
         size_t head = q.n;
         /* payload 4: the server greets with a text line before it answers the tunnelled requests (judged by the monitors only) */
         if (payload == 4 && (reqkind == 1 || body || interim)) continue;
+        /* payload 5: plain HTTP that begins with an empty line (a robust server skips it; the refused-CONNECT path does); payload 6: binary without LF and NUL (the probe has no line end to decide at) */
+        if (payload >= 5 && (reqkind == 1 || body || interim || !twoxx)) continue;
+        if (payload == 5) hb_puts(&q, "\r\nGET /t1 HTTP/1.1\r\nHost: h\r\n\r\nGET /t2 HTTP/1.1\r\nHost: h\r\n\r\n");
+        if (payload == 6) { for (int i = 0; i < 48; i++) hb_putc(&q, 0x80 + i); }
         if (payload == 1 || payload == 4) hb_puts(&q, "GET /t1 HTTP/1.1\r\nHost: h\r\n\r\nGET /t2 HTTP/1.1\r\nHost: h\r\n\r\n");
         else if (payload == 2) hb_put(&q, "\x16\x03\x01\x00\x2e\x01\x00\x00\x2a\x03\x03\n\x00\xff", 14);
         else if (payload == 3) hb_put(&q, "\x16\x03\x01\x00\x2e\x01\x00\x00\x2a\x03\x03\x07\x00\xff", 14);   /* no LF at all: only the NUL ends the probe */
@@ -784,17 +790,17 @@ static void mode_tunnel(int argc, char **argv) {
         hb_printf(&r, "HTTP/1.1 %d X\r\n", status);
         if (body) hb_puts(&r, "Content-Length: 2\r\n\r\nno"); else if (!twoxx && status != 101) hb_puts(&r, "Content-Length: 0\r\n\r\n"); else hb_puts(&r, "\r\n");
         size_t rhead = r.n - (body ? 2 : 0);
-        int http_resume = (payload == 1) && (status != 101);
+        int http_resume = (payload == 1 || payload == 5) && (status != 101);
         size_t follow_after = 0;
         if (payload == 4) { hb_puts(&r, "welcome\n"); follow_after = r.n; hb_puts(&r, "HTTP/1.1 211 A\r\nContent-Length: 0\r\n\r\nHTTP/1.1 212 B\r\nContent-Length: 0\r\n\r\n"); }
         if (http_resume) hb_puts(&r, "HTTP/1.1 211 A\r\nContent-Length: 0\r\n\r\nHTTP/1.1 212 B\r\nContent-Length: 0\r\n\r\n");
-        else if ((payload == 2 || payload == 3) && (twoxx || status == 101)) hb_put(&r, "\x16\x03\x03\x00\x05hello\n\x01", 12);
+        else if ((payload == 2 || payload == 3 || payload == 6) && (twoxx || status == 101)) hb_put(&r, "\x16\x03\x03\x00\x05hello\n\x01", 12);
         else if (payload == 1 && status == 101) hb_put(&r, "\x81\x05hello", 7);
         /* refused CONNECT followed by non-HTTP bytes is outside the statement */
         if ((payload == 2 || payload == 3) && !(twoxx || status == 101)) continue;
         TT.follow_after = follow_after;
         TT.head_len = head; TT.qlen = q.n; TT.rhead_len = rhead; TT.status = status; TT.payload = payload; TT.reqkind = reqkind;
-        TT.expect_tunnel = (status == 101) || (twoxx && (payload == 2 || payload == 3) && reqkind == 0);
+        TT.expect_tunnel = (status == 101) || (twoxx && (payload == 2 || payload == 3 || payload == 6) && reqkind == 0);
         TT.expect_http = http_resume && reqkind == 0;
         /* cut choices: none, or one cut in the +-3 window around the head end (both directions) */
         /* cut choices: none or one cut per direction; fullcuts: at EVERY position of each stream, otherwise in the +-3 window around the head end */
@@ -825,7 +831,7 @@ static void mode_tunnel(int argc, char **argv) {
                 }
             }
             snprintf(TT.desc, sizeof TT.desc, "%s status=%d%s payload=%s body=%d qcut=%d rcut=%d auto_destroy=%d", reqkind ? "GET+Upgrade" : "CONNECT", status, interim ? " after an interim 100" : "",
-                     payload == 0 ? "none" : payload == 1 ? "2 HTTP requests" : payload == 2 ? "TLS-like bytes" : payload == 3 ? "TLS-like bytes without LF" : "2 HTTP requests, server greets with a text line first", body, qc, rc, ad);
+                     payload == 0 ? "none" : payload == 1 ? "2 HTTP requests" : payload == 2 ? "TLS-like bytes" : payload == 3 ? "TLS-like bytes without LF" : payload == 5 ? "empty line then 2 HTTP requests" : payload == 6 ? "48 binary bytes without LF and NUL" : "2 HTTP requests, server greets with a text line first", body, qc, rc, ad);
             if (hc) strncat(TT.desc, " +cut at the CONNECT head end", sizeof TT.desc - strlen(TT.desc) - 1);
             if (id % 700 == 0) hx_emit_sample(TT.desc);
             tunnel_exec(pq, nq, pr, nr, head_chunk, ad);
@@ -1108,6 +1114,9 @@ static const ebase BASES[] = {
     { "304 announcing a coding", { "GET /n HTTP/1.1\r\n", "Host: h\r\n", "If-None-Match: x\r\n", "\r\n" }, { "HTTP/1.1 304 NM\r\n", "Content-Encoding: gzip\r\n", "\r\n" } },
     { "HEAD answered with coding and length", { "HEAD /h HTTP/1.1\r\n", "Host: h\r\n", "\r\n" }, { "HTTP/1.1 200 OK\r\n", "Content-Encoding: gzip\r\n", "Content-Length: 29\r\n", "\r\n" } },
     { "204 announcing a coding", { "GET /e HTTP/1.1\r\n", "Host: h\r\n", "\r\n" }, { "HTTP/1.1 204 NC\r\n", "Content-Encoding: deflate\r\n", "\r\n" } },
+    { "body-less request announcing a coding", { "GET /c HTTP/1.1\r\n", "Host: h\r\n", "Content-Encoding: gzip\r\n", "\r\n" }, { "HTTP/1.1 200 OK\r\n", "Content-Length: 2\r\n", "\r\n", "ok" } },
+    { "chunked urlencoded body", { "POST /u HTTP/1.1\r\n", "Host: h\r\n", "Content-Type: application/x-www-form-urlencoded\r\n", "Transfer-Encoding: chunked\r\n", "\r\n", "4\r\na=1&\r\n", "3\r\nb=2\r\n", "0\r\n", "\r\n" },
+        { "HTTP/1.1 200 OK\r\n", "Transfer-Encoding: chunked\r\n", "\r\n", "2\r\nok\r\n", "0\r\n", "\r\n" } },
     /* coded bodies in chunked framing with a trailer, complete and cut short inside the deflate data (the decoder still holds output when the last chunk arrives) */
     { "gzip response, chunked with trailer", { "GET /g HTTP/1.1\r\n", "Host: h\r\n", "\r\n" },
         { "HTTP/1.1 200 OK\r\n", "Content-Encoding: gzip\r\n", "Transfer-Encoding: chunked\r\n", "\r\n", "e\r\n", "hex:1f8b0800000000000203cb48cdc9", "\r\n", "f\r\n", "hex:c957c8c04e0200f6d253381d000000", "\r\n", "0\r\n", "X-T: t\r\n", "\r\n" } },
@@ -1326,6 +1335,24 @@ static void mode_steady(int argc, char **argv) {
         steady_add(&S, &BASES[a], tw, &q1, &r1); steady_add(&S, &BASES[b], tw, &q2, &r2); hx_script_add(&S, OP_FREED, NULL, 0);
         snprintf(lab, sizeof lab, "steady state: rounds of base \"%s\" then base \"%s\" then tx_freed, %s delivery, request decompression %s", BASES[a].name, BASES[b].name, tw ? "token-by-token" : "whole-message", rd ? "on" : "off");
         S.label = lab;
+        /* one round with all monitors first: two exchanges that are fine alone must be fine one after the other (state left behind by A and picked up by B) */
+        {
+            static signed char alone_err[64][2][2]; static int alone_init;
+            if (!alone_init) { memset(alone_err, -1, sizeof alone_err); alone_init = 1; }
+            for (int w = 0; w < 2; w++) { int bi = w ? b : a; if (bi < 64 && alone_err[bi][tw][rd] < 0) {
+                static hx_script T; hx_script_init(&T); T.cfg = S.cfg; T.label = "single base"; static hx_buf tq, tr; steady_add(&T, &BASES[bi], tw, &tq, &tr);
+                alone_err[bi][tw][rd] = (hx_run(&T, &O) == 0 && (O.final_in_status == HTP_STREAM_ERROR || O.final_out_status == HTP_STREAM_ERROR)) ? 1 : 0; } }
+            S.light = 0; S.repeat = 1;
+            if (hx_run(&S, &O) == 0) {
+                n_exec++; n_calls += O.ncalls; hx_report_verdicts(&S, &O, PROPS);
+                int err = O.final_in_status == HTP_STREAM_ERROR || O.final_out_status == HTP_STREAM_ERROR;
+                if (err && a < 64 && b < 64 && !alone_err[a][tw][rd] && !alone_err[b][tw][rd] && strstr(PROPS, "C06")) {
+                    char m[500]; snprintf(m, sizeof m, "%s: a direction ends in ERROR (%d/%d) although each of the two exchanges alone is parsed without error", lab, O.final_in_status, O.final_out_status);
+                    hx_emit_script_violation("C06", "pair_error", m, &S, &O);
+                }
+            }
+            S.light = 1;
+        }
         /* one round first: how many transactions complete per round */
         S.repeat = 1; S.steady_period = 0;
         if (hx_run(&S, &O)) continue;
